@@ -101,6 +101,20 @@ Proof.
     + apply andb_true_iff in Hv. destruct Hv as [_ Hv]. fold (cinf (firstn k evs)). apply (IH txs _ Hv k t x s Hk).
 Qed.
 
+(* every entry of txs is sourced and goes along an edge (none is left over) *)
+Lemma valid_logT_sourced : forall evs txs st, valid_logT st evs txs = true ->
+  Forall (fun x : tx => exists u, snd (fst x) = Some u /\ In (snd x) (gadj g u)) txs.
+Proof.
+  induction evs as [|[[t0 y] s0] evs IH]; intros txs st Hv; cbn [valid_logT] in Hv.
+  - destruct txs; [constructor|discriminate Hv].
+  - destruct (N.eqb s0 stI).
+    + destruct txs as [|[[t' [u'|]] v'] txs']; try discriminate Hv.
+      repeat (apply andb_true_iff in Hv; destruct Hv as [Hv ?]).
+      match goal with H : N.eqb v' y = true |- _ => apply N.eqb_eq in H; subst v' end.
+      constructor; [exists u'; split; [reflexivity|apply mem_In; assumption]|]. eapply IH. eassumption.
+    + apply andb_true_iff in Hv. destruct Hv as [_ Hv]. eapply IH. exact Hv.
+Qed.
+
 End Weak.
 
 (* with the source check: the source is infectious in the statuses replayed up to the event *)
